@@ -28,6 +28,7 @@ import (
 
 type env struct {
 	r       *core.Run
+	dir     string
 	srv     *ck.Servers
 	pki     *ck.PKI
 	a       *app.App
@@ -199,7 +200,10 @@ func TestC11(t *testing.T) {
 		"(string / float64 / int / list / object) of subject attributes and pipeline outputs, the JOSE header of issued JWTs and the key material their signature verifies with. " +
 		"Introspection / jwt authenticators also discover their endpoints through a metadata document, with trusted issuers absent, equal to, different from and a superset of the " +
 		"metadata issuer, and issuers narrowed on rule level; jwt finalizers use signer key stores with the same key material under different key ids, different material under the same id, " +
-		"several keys selected by key_id, and different signer names.")
+		"several keys selected by key_id, and different signer names. Values of the remote authorizer / generic contextualizer (catalogue level and rule level) rendered from " +
+		"request attributes (header, cookie, path, method) and used in the endpoint URL, an endpoint header resp. the payload; generic authenticators on one endpoint differing in the payload " +
+		"template resp. in having a session_lifespan (credentials whose session is inactive / expired); jwt authenticators on one JWKS endpoint with and without JWK certificate validation " +
+		"(certificates of an untrusted CA / with the wrong key usage).")
 	r.Assume("test servers answer as a pure function of the received request (method, URI, Authorization/Cookie/Content-Type/Accept/X-* headers, body)",
 		"JWTs issued by the jwt finalizer are compared by their JOSE header, their claims without iat/nbf/exp/jti and the key their signature verifies with",
 		"two values of different kinds (float64 / int / string as json.Number) are different values for the pipeline even if they render to the same JSON text: CEL has no overloads across them")
@@ -208,7 +212,7 @@ func TestC11(t *testing.T) {
 	if dir == "" {
 		dir = t.TempDir()
 	}
-	e := &env{r: r, srv: ck.NewServers()}
+	e := &env{r: r, dir: dir, srv: ck.NewServers()}
 	defer e.srv.Close()
 	var err error
 	if e.pki, err = ck.NewPKI(dir); err != nil {
@@ -486,6 +490,22 @@ func pairSignature(pc pairCase, bad stepCmp) string {
 	case "url-unparsable-query-from-subject", "url-unparsable-query-from-value":
 		if bad.Hit {
 			return "rendered-url-query-not-in-cache-key:" + m
+		}
+	case "request-attribute-in-value":
+		if bad.Hit {
+			return "request-derived-value-not-in-cache-key:" + m
+		}
+	case "payload-of-other-prototype":
+		if bad.Hit {
+			return "payload-not-in-cache-key:" + m
+		}
+	case "session-lifespan-of-other-prototype":
+		if bad.Hit && bad.CacheOn.Err == "" && bad.CacheOff.Err == "authentication" {
+			return "cache-hit-skips-session-lifespan-check:" + m
+		}
+	case "jwk-validation-of-other-prototype":
+		if bad.Hit && bad.CacheOn.Err == "" && bad.CacheOff.Err == "authentication" {
+			return "cached-jwk-not-validated:" + m
 		}
 	case "http-vary-header":
 		if bad.Hit {
